@@ -163,3 +163,466 @@ def _(c):
     ends1 = ite(hit, Without(S.ends(l), v), S.ends(l))
     o.set("_vertices", l, ends1)
     cache_effects(o, lambda x: Or(x == v, And(hit, Mem(S.ends(l), v), x != NONE, Mem(ends1, x))))
+
+
+# =============================================================================================== end assignment (C01, C03, C05)
+
+
+def set_end_spec(c, l, idx_is, new):
+    """reference model `set_end(l, i, new)` of DESIGN.md A.1.  idx_is(k) -> Bool 'the index is k'"""
+    S = c.S
+    assoc_invs(c)
+    e = S.ends(l)
+    c.raises("IndexError", when=Len(e) < 2, label="lost-an-end")     # before anything is changed
+    old = ite(idx_is(0), Nth(e, 0), Nth(e, 1))
+    ends1 = ite(idx_is(0), SetNth(e, 0, new), SetNth(e, 1, new))
+    detach = And(old != NONE, Not(Mem(ends1, old)))
+    attach = And(new != NONE, Not(Mem(S.links(new), l)))
+    o = c.normal(when=Len(e) >= 2)
+    o.set("_vertices", l, ends1)
+    o.set("_links", old, Rem1(S.links(old), l), when=detach)
+    o.set("_links", new, snoc(S.links(new), l), when=attach)
+    cache_effects(o, lambda x: And(x != NONE, Or(Mem(ends1, x), x == old)))
+    return o
+
+
+@contract("TwoEndedLink._set_end", "self:TwoEndedLink, idx:int, new:Vertex?", props=("C01", "C03", "C05"))
+def _(c):
+    c.requires(Or(c.idx == 0, c.idx == 1), "idx-is-0-or-1")
+    set_end_spec(c, c.self, lambda k: c.idx == k, c.new)
+
+
+@contract("TwoEndedLink._set_v1", "self:TwoEndedLink, new:Vertex?", props=("C01", "C03", "C05"))
+def _(c):
+    set_end_spec(c, c.self, lambda k: BoolVal(k == 0), c.new)
+
+
+@contract("TwoEndedLink._set_v2", "self:TwoEndedLink, new:Vertex?", props=("C01", "C03", "C05"))
+def _(c):
+    set_end_spec(c, c.self, lambda k: BoolVal(k == 1), c.new)
+
+
+@contract("TwoEndedLink.v1.setter", "self:TwoEndedLink, new:Vertex?", props=("C01", "C03", "C05"))
+def _(c):
+    set_end_spec(c, c.self, lambda k: BoolVal(k == 0), c.new)
+
+
+@contract("TwoEndedLink.v2.setter", "self:TwoEndedLink, new:Vertex?", props=("C01", "C03", "C05"))
+def _(c):
+    set_end_spec(c, c.self, lambda k: BoolVal(k == 1), c.new)
+
+
+REG.refines("DirectedEdge.v1.setter", "TwoEndedLink.v1.setter", "self:DirectedEdge, new:Vertex?")
+REG.refines("DirectedEdge.v2.setter", "TwoEndedLink.v2.setter", "self:DirectedEdge, new:Vertex?")
+
+
+# =============================================================================================== constructors
+
+
+def base_init_effects(c, o, obj, uid, attrs, unis_seq, uid_loose=True):
+    """BaseObject.__init__: uid (given, or an arbitrary positive integer), attributes, de-duplicated universes"""
+    S = c.S
+
+    def c_uid(new, old):
+        # the given uid, or (uid None/0) an arbitrary positive integer (uuid4); nobody else's uid changes
+        return [Schema("uid-given-or-generated", (Ref,),
+                       lambda x: If(x == obj, If(uid != 0, new(x) == uid, new(x) > 0), new(x) == old(x)), trigger=("_uid",))]
+    if uid_loose:
+        o.loose("_uid", c_uid)
+    set_attrs_effect(o, S, obj, attrs)
+    o.set("_universes", obj, T.Dedup(unis_seq))
+
+
+@contract("BaseObject.__init__", "self:BaseObject, *, uid:int=None, attributes:attrs=None, universes:iter?:Universe=None",
+          props=("C02", "C12"))
+def _(c):
+    a = c.attributes
+    bad = And(a != NONE, Not(ad_isdict(a)))
+    c.raises("TypeError", when=bad, label="attributes-not-a-dict")
+    u = c.val("universes")
+    o = c.normal(when=Not(bad))
+    base_init_effects(c, o, c.self, c.uid, a, ite(u.is_none, T.EMPTY(), u.seq))
+
+
+@REG.loop("BaseObject.__init__", 0)
+def _(L):
+    from pyvc.contracts import LoopInv
+    a = L.items_of
+    obj = L.args["self"].term
+    st = L.st.copy()
+    k = L.k
+    st.write_where("dyn_has", lambda ad: (And(ad[0] == obj, ad_has_n(a, k, ad[1])), BoolVal(True)))
+    st.write_where("dyn_val", lambda ad: (And(ad[0] == obj, ad_has_n(a, k, ad[1])), ad_val_n(a, k, ad[1])))
+    return LoopInv(state=st, defs=[ad_unfold(a, k)])
+
+
+def elems_typed(seq, ct, cname, nullable=False):
+    def f(x):
+        ok = ct.is_a(x, cname)
+        return Implies(Mem(seq, x), Or(x == NONE, ok) if nullable else And(x != NONE, ok))
+    return Schema(f"elements-are-{cname}", (Ref,), f)
+
+
+def link_init_effects(c, o, l, seq):
+    """Link.__init__ after the base part: ends(l) = seq, every vertex of seq lists l once more"""
+    S = c.S
+    o.set("_vertices", l, seq)
+    o.set_where("_links", lambda ad: (And(ad[0] != NONE, Mem(seq, ad[0])), snoc(S.links(ad[0]), l)))
+    cache_effects(o, lambda x: And(x != NONE, Mem(seq, x)))
+
+
+@contract("Link.__init__", "self:Link, *, vertices:iter?:Vertex?=None, uid:int=None, attributes:attrs=None, _force_creation:bool=False",
+          props=("C01", "C03", "C05", "C12"))
+def _(c):
+    a = c.attributes
+    vs = c.val("vertices")
+    seq = ite(vs.is_none, T.EMPTY(), vs.seq)
+    c.assume_inv(elems_typed(seq, c.ct, "Vertex", nullable=True))
+    assoc_invs(c)
+    bad = Or(And(a != NONE, Not(ad_isdict(a))), And(T.cls_of(c.self) == c.ct.c("Link"), Not(c._force_creation)))
+    c.raises("TypeError", when=bad)
+    o = c.normal(when=Not(bad))
+    base_init_effects(c, o, c.self, c.uid, a, T.EMPTY())
+    link_init_effects(c, o, c.self, seq)
+
+
+@REG.loop("Link.__init__", 0)
+def _(L):
+    from pyvc.contracts import LoopInv, Loose
+    l = L.args["self"].term
+    E = L.st                       # heap at loop entry
+    pre = L.prefix
+    st = E.copy()
+    st.write("_vertices", l, pre)
+    st.write_where("_links", lambda ad: (And(ad[0] != NONE, Mem(pre, ad[0])), snoc(E.links(ad[0]), l)))
+
+    def c_has(new, old):
+        return [Schema("memo-shrinks-prefix-cleared", MEMO_KEY,
+                       lambda v, d, u, f: Implies(new(v, d, u, f), And(old(v, d, u, f), Not(And(v != NONE, Mem(pre, v))))),
+                       trigger=("memo_has",))]
+
+    def c_stats(new, old):
+        return [Schema("stats-monotone", (Int,), lambda u: Implies(old(u), new(u)), trigger=("stats_has",))]
+    return LoopInv(state=st, loose=[Loose("memo_has", c_has), Loose("stats_has", c_stats)])
+
+
+def two_ended_init(c):
+    a = c.attributes
+    v1, v2 = c.v1, c.v2
+    assoc_invs(c)
+    ill = Or(And(v1 != NONE, Not(c.ct.is_a(v1, "Vertex"))), And(v2 != NONE, Not(c.ct.is_a(v2, "Vertex"))))
+    bad = Or(ill, And(a != NONE, Not(ad_isdict(a))))
+    c.raises("TypeError", when=bad)
+    o = c.normal(when=Not(bad))
+    base_init_effects(c, o, c.self, c.uid, a, T.EMPTY())
+    # reference model T(a, b): ends = [a, b]; links(a) ++= [l] if a != None; links(b) ++= [l] if b != None and b != a
+    link_init_effects(c, o, c.self, T.seq_of(v1, v2))
+
+
+@contract("TwoEndedLink.__init__", "self:TwoEndedLink, v1:any=None, v2:any=None, *, uid:int=None, attributes:attrs=None",
+          props=("C01", "C03", "C05"))
+def _(c):
+    two_ended_init(c)
+
+
+REG.refines("DirectedEdge.__init__", "TwoEndedLink.__init__",
+            "self:DirectedEdge, v1:any=None, v2:any=None, *, uid:int=None, attributes:attrs=None")
+REG.refines("UnDirectedEdge.__init__", "TwoEndedLink.__init__",
+            "self:UnDirectedEdge, v1:any=None, v2:any=None, *, uid:int=None, attributes:attrs=None")
+
+
+# =============================================================================================== universe membership (C02, C03)
+
+
+def uni_invs(c):
+    c.assume_inv(TY_unis(c.S, c.ct))
+    c.assume_inv(I2_nodup(c.S, c.ct))
+
+
+@contract("BaseObject.universes", "self:BaseObject", pure_getter=True, props=("C12", "C13"))
+def _(c):
+    o = c.normal()
+    r = o.fresh("<container>", "universes")
+    o.set("elems", r, c.S.unis(c.self))
+    o.result(VList(r, "Universe"))
+
+
+@contract("Universe.vertices", "self:Universe", pure_getter=True, props=("C12", "C13"))
+def _(c):
+    o = c.normal()
+    r = o.fresh("<container>", "vertices")
+    o.set("elems", r, c.S.members(c.self))
+    o.result(VList(r, "Vertex"))
+
+
+@contract("BaseObject.add_to_universe", "self:BaseObject, universe:Universe", props=("C02",))
+def _(c):
+    S, b, u = c.S, c.self, c.universe
+    o = c.normal()
+    o.set("_universes", b, snoc(S.unis(b), u), when=Not(Mem(S.unis(b), u)))
+
+
+@contract("BaseObject.remove_from_universe", "self:BaseObject, universe:Universe", props=("C02",))
+def _(c):
+    S, b, u = c.S, c.self, c.universe
+    c.raises("ValueError", when=Not(Mem(S.unis(b), u)), label="not-a-member")      # nothing changes
+    o = c.normal(when=Mem(S.unis(b), u))
+    o.set("_universes", b, Rem1(S.unis(b), u))
+
+
+def sym_add(c, v, u):
+    """reference model add(u, o): identical from either side"""
+    S = c.S
+    o = c.normal()
+    o.set("_universes", v, snoc(S.unis(v), u), when=Not(Mem(S.unis(v), u)))
+    o.set("_vertices", u, snoc(S.members(u), v), when=Not(Mem(S.members(u), v)))
+    return o
+
+
+@contract("Vertex.add_to_universe", "self:Vertex, universe:Universe", group="uni-add", props=("C02", "C03"))
+def _(c):
+    uni_invs(c)
+    c.measure(2 * b2i(Not(Mem(c.S.members(c.universe), c.self))) + 1)
+    sym_add(c, c.self, c.universe)
+
+
+@contract("Universe.add_vertex", "self:Universe, vert:Vertex", group="uni-add", props=("C02", "C03"))
+def _(c):
+    uni_invs(c)
+    c.measure(2 * b2i(Not(Mem(c.S.members(c.self), c.vert))))
+    S, u, v = c.S, c.self, c.vert
+    # the universe side never runs ahead of the vertex side (implied by I2; also true at the internal call from
+    # Vertex.add_to_universe, where vert is not yet a member)
+    c.requires(Implies(Mem(S.members(u), v), Mem(S.unis(v), u)), "member-implies-listed")
+    sym_add(c, v, u)
+
+
+@contract("Universe.remove_vertex", "self:Universe, vert:Vertex", group="uni-del", props=("C02", "C03"))
+def _(c):
+    uni_invs(c)
+    S, u, v = c.S, c.self, c.vert
+    c.measure(Cnt(S.members(u), v) + Cnt(S.unis(v), u))
+    c.raises("ValueError", when=Not(Mem(S.members(u), v)), label="not-a-member")   # nothing changes
+    o = c.normal(when=Mem(S.members(u), v))
+    o.set("_vertices", u, Rem1(S.members(u), v))
+    o.set("_universes", v, Rem1(S.unis(v), u), when=Mem(S.unis(v), u))
+
+
+@contract("Vertex.remove_from_universe", "self:Vertex, universe:Universe", group="uni-del", props=("C02", "C03"))
+def _(c):
+    uni_invs(c)
+    S, v, u = c.S, c.self, c.universe
+    c.measure(Cnt(S.members(u), v) + Cnt(S.unis(v), u))
+    c.raises("ValueError", when=Not(Mem(S.unis(v), u)), label="not-a-member")      # nothing changes
+    o = c.normal(when=Mem(S.unis(v), u))
+    o.set("_universes", v, Rem1(S.unis(v), u))
+    o.set("_vertices", u, Rem1(S.members(u), v), when=Mem(S.members(u), v))
+
+
+# =============================================================================================== Vertex.__init__ (C01, C02, C05)
+
+MEMO_KEY_L = MEMO_KEY + (Ref,)
+
+
+def memo_shrinks_unless(clear5):
+    """loose memo constraint with one extra universally quantified reference: new(v,k) -> old(v,k) and not clear5(v, l)"""
+    def c_has(new, old):
+        return [Schema("memo-only-shrinks-and-cleared", MEMO_KEY_L,
+                       lambda v, d, u, f, l: Implies(new(v, d, u, f), And(old(v, d, u, f), Not(clear5(v, l)))),
+                       trigger=("memo_has",))]
+    return c_has
+
+
+def c_stats_with(uidterm):
+    def c_stats(new, old):
+        return [Schema("stats-monotone", (Int,), lambda u: Implies(Or(old(u), u == uidterm), new(u)), trigger=("stats_has",))]
+    return c_stats
+
+
+@contract("Vertex.__init__",
+          "self:Vertex, *, links:iter?:Link=None, uid:int=None, attributes:attrs=None, universes:iter?:Universe=None",
+          props=("C01", "C02", "C05", "C12"))
+def _(c):
+    S, v, a = c.S, c.self, c.attributes
+    ls, us = c.val("links"), c.val("universes")
+    Lseq = ite(ls.is_none, T.EMPTY(), ls.seq)
+    Useq = ite(us.is_none, T.EMPTY(), us.seq)
+    c.assume_inv(elems_typed(Lseq, c.ct, "Link"))
+    c.assume_inv(elems_typed(Useq, c.ct, "Universe"))
+    assoc_invs(c)
+    uni_invs(c)
+    bad = And(a != NONE, Not(ad_isdict(a)))
+    c.raises("TypeError", when=bad)
+    o = c.normal(when=Not(bad))
+    base_init_effects(c, o, v, c.uid, a, Useq)
+    o.set("_links", v, T.Dedup(Lseq))
+    o.set_where("_vertices", lambda ad: (
+        Or(And(c.ct.is_a(ad[0], "Link"), Mem(Lseq, ad[0])), And(c.ct.is_a(ad[0], "Universe"), Mem(Useq, ad[0]))),
+        snoc(S.read("_vertices", ad[0]), v)))
+    from pyvc.contracts import Loose
+    o.loose("memo_has", memo_shrinks_unless(
+        lambda x, l: Or(x == v, And(x != NONE, Mem(Lseq, l), Mem(snoc(S.ends(l), v), x)))))
+    o.loose("stats_has", lambda new, old: [Schema("stats-monotone", (Int,), lambda u: Implies(old(u), new(u)), trigger=("stats_has",))])
+
+
+@REG.loop("Vertex.__init__", 0)
+def _(L):
+    from pyvc.contracts import LoopInv, Loose
+    v = L.args["self"].term
+    E, pre = L.st, L.prefix
+    st = E.copy()
+    st.write("_links", v, T.Dedup(pre))
+    ct = L.engine.ct
+    st.write_where("_vertices", lambda ad: (And(ct.is_a(ad[0], "Link"), Mem(pre, ad[0])), snoc(E.read("_vertices", ad[0]), v)))
+    return LoopInv(state=st, loose=[
+        Loose("memo_has", memo_shrinks_unless(lambda x, l: And(x != NONE, Mem(pre, l), Mem(snoc(E.ends(l), v), x)))),
+        Loose("stats_has", lambda new, old: [Schema("stats-monotone", (Int,), lambda u: Implies(old(u), new(u)), trigger=("stats_has",))])])
+
+
+@REG.loop("Vertex.__init__", 1)
+def _(L):
+    from pyvc.contracts import LoopInv
+    v = L.args["self"].term
+    E, pre = L.st, L.prefix
+    st = E.copy()
+    ct = L.engine.ct
+    st.write_where("_vertices", lambda ad: (And(ct.is_a(ad[0], "Universe"), Mem(pre, ad[0])), snoc(E.read("_vertices", ad[0]), v)))
+    return LoopInv(state=st)
+
+
+# =============================================================================================== universe <-> laws binding (C19)
+
+
+def laws_typing(c):
+    c.assume_inv(TY_laws(c.S, c.ct))
+
+
+for _name, _field in (("mixed_links", "_mixed_links"), ("cycles", "_cycles"), ("multipath", "_multipath"),
+                      ("multiverse", "_multiverse")):
+    def _mk(_field=_field):
+        def fn(c):
+            # reads back exactly what was stored at construction (there is no setter: checked syntactically)
+            c.normal(result=VRef(c.S.read(_field, c.self), None, "opaque"))
+        return fn
+    REG.contract(f"UniverseLaws.{_name}", "self:UniverseLaws", pure_getter=True, props=("C19", "C13"))(_mk())
+
+
+@contract("UniverseLaws.applies_to", "self:UniverseLaws", pure_getter=True, props=("C19", "C13"))
+def _(c):
+    c.normal(result=VRef(c.S.applies(c.self), "Universe"))
+
+
+@contract("Universe.laws", "self:Universe", pure_getter=True, props=("C19", "C13"))
+def _(c):
+    c.normal(result=VRef(c.S.laws(c.self), "UniverseLaws"))
+
+
+def M_laws(c, o, u, X):
+    """reference model of `u.laws = X` (total: the bracketed guards of DESIGN.md C19 make it defined in any state)"""
+    S = c.S
+    Lold = S.laws(u)
+    change = X != Lold
+    uold = S.applies(X)
+    o.set("_laws", u, X, when=change)
+    o.set("_applies_to", Lold, NONE, when=And(change, Lold != NONE, S.applies(Lold) == u))
+    o.set("_applies_to", X, u, when=And(change, X != NONE))
+    o.set("_laws", uold, NONE, when=And(change, X != NONE, uold != NONE, uold != u, S.laws(uold) == X))
+
+
+def M_applies(c, o, L, w):
+    """reference model of `L.applies_to = w`"""
+    S = c.S
+    uold = S.applies(L)
+    change = w != uold
+    Lprev = S.laws(w)
+    o.set("_applies_to", L, w, when=change)
+    o.set("_laws", uold, NONE, when=And(change, uold != NONE, S.laws(uold) == L))
+    o.set("_laws", w, L, when=And(change, w != NONE))
+    o.set("_applies_to", Lprev, NONE, when=And(change, w != NONE, Lprev != NONE, Lprev != L, S.applies(Lprev) == w))
+
+
+@contract("Universe.laws.setter", "self:Universe, new:UniverseLaws?", props=("C19",))
+def _(c):
+    laws_typing(c)
+    o = c.normal()          # every assignment succeeds
+    M_laws(c, o, c.self, c.new)
+
+
+@contract("UniverseLaws.applies_to.setter", "self:UniverseLaws, new:Universe?", props=("C19",))
+def _(c):
+    laws_typing(c)
+    o = c.normal()
+    M_applies(c, o, c.self, c.new)
+
+
+@contract("UniverseLaws.__init__",
+          "self:UniverseLaws, edge_whitelist:any=None, mixed_links:any=False, cycles:any=True, multipath:any=True, multiverse:any=False, applies_to:Universe?=None",
+          props=("C19", "C12"), trusted=True, no_body=True)
+def _(c):
+    # TRUSTED (body not within the symbolic subset: dict comprehension over MappingProxyType); bounded stand-in only.
+    o = c.normal()
+    base_init_effects(c, o, c.self, z3.IntVal(0), NONE, T.EMPTY())
+    for f_, a_ in (("_mixed_links", c.mixed_links), ("_cycles", c.cycles), ("_multipath", c.multipath),
+                   ("_multiverse", c.multiverse), ("_applies_to", c.applies_to)):
+        o.set(f_, c.self, a_)
+    wl = T.fresh("whitelist_copy", Ref)
+    o.set("_edge_whitelist", c.self, wl)
+
+
+@contract("Universe.__init__",
+          "self:Universe, *, vertices:iter?:Vertex=None, laws:UniverseLaws?=None, uid:int=None, attributes:attrs=None",
+          props=("C02", "C19", "C12"))
+def _(c):
+    S, u, a, L0 = c.S, c.self, c.attributes, c.laws
+    vs = c.val("vertices")
+    Vseq = ite(vs.is_none, T.EMPTY(), vs.seq)
+    c.assume_inv(elems_typed(Vseq, c.ct, "Vertex"))
+    assoc_invs(c)
+    uni_invs(c)
+    laws_typing(c)
+    bad = And(a != NONE, Not(ad_isdict(a)))
+    c.raises("TypeError", when=bad)
+    for given in (False, True):
+        o = c.normal(when=And(Not(bad), (L0 != NONE) if given else (L0 == NONE)), label="laws-given" if given else "laws-created")
+        base_init_effects(c, o, u, c.uid, a, T.EMPTY(), uid_loose=False)
+        o.set("_links", u, T.EMPTY())
+        # laws: the given law set is moved here (detaching the universe it governed), or a new one is created
+        if given:
+            L = L0
+            uold = S.applies(L0)
+            o.set("_laws", uold, NONE, when=And(uold != NONE, S.laws(uold) == L0))
+            Lnew = None
+        else:
+            L = Lnew = o.fresh("UniverseLaws", "laws")
+            o.set("_universes", Lnew, T.EMPTY())
+        o.set("_laws", u, L)
+        o.set("_applies_to", L, u)
+
+        def c_uid(new, old, Lnew=Lnew):
+            return [Schema("uid-given-or-generated", (Ref,),
+                           lambda x: If(x == u, If(c.uid != 0, new(x) == c.uid, new(x) > 0),
+                                        If(x == Lnew, new(x) > 0, new(x) == old(x)) if Lnew is not None else new(x) == old(x)),
+                           trigger=("_uid",))]
+        o.loose("_uid", c_uid)
+        # members
+        o.set("_vertices", u, T.Dedup(Vseq))
+        o.set_where("_universes", lambda ad: (And(c.ct.is_a(ad[0], "Vertex"), Mem(Vseq, ad[0])), snoc(S.unis(ad[0]), u)))
+        o.loose("memo_has", lambda new, old: [Schema("memo-only-shrinks-and-cleared", MEMO_KEY,
+                lambda v, d, uu, f: Implies(new(v, d, uu, f), And(old(v, d, uu, f), v != u)), trigger=("memo_has",))])
+        stats_monotone(o)
+        if Lnew is not None:
+            for f_ in ("_mixed_links", "_cycles", "_multipath", "_multiverse", "_edge_whitelist"):
+                o.loose(f_, lambda new, old, f_=f_, Lnew=Lnew: [Schema("only-new-laws-written", (Ref,),
+                        lambda x: Implies(x != Lnew, new(x) == old(x)), trigger=(f_,))])
+
+
+@REG.loop("Universe.__init__", 0)
+def _(L):
+    from pyvc.contracts import LoopInv
+    u = L.args["self"].term
+    E, pre = L.st, L.prefix
+    ct = L.engine.ct
+    st = E.copy()
+    st.write("_vertices", u, T.Dedup(pre))
+    st.write_where("_universes", lambda ad: (And(ct.is_a(ad[0], "Vertex"), Mem(pre, ad[0])), snoc(E.unis(ad[0]), u)))
+    return LoopInv(state=st)
